@@ -3,6 +3,7 @@ import PrysmVerif.Lemmas.C06Analysis
 import PrysmVerif.Lemmas.C06Model
 import Mathlib.Data.Complex.Basic
 import Mathlib.Tactic.IntervalCases
+import Mathlib.Analysis.SpecialFunctions.Trigonometric.Deriv
 /-!
 # C06 — every backprop routine returns the true gradient of its forward routine
 
@@ -23,6 +24,15 @@ open Generated.C06 Finset C06L
 
 /-! ## translated obligations: the Q / shift / sign glue of the propagation backprops -/
 
+/-- closes an equation between two translated rational expressions (Q, shift): unfold `Q_for_sampling`, split the
+`if shift != 0` conditionals, normalise -- so any algebraically equal spelling of the backprop's arithmetic is accepted -/
+macro "glue_eq" : tactic =>
+  `(tactic| (first
+      | rfl
+      | ring1
+      | (simp only [qForSampling] <;> first | rfl | ring1 | (split_ifs <;> first | rfl | ring1 | (field_simp; ring1) | field_simp))
+      | (split_ifs <;> first | rfl | ring1 | (field_simp; ring1) | field_simp)))
+
 /-- `focus_fixed_sampling_backprop` hands `dft2_backprop` the forward's per-axis Q, the forward's shift (in output
 samples) and the forward's input shape, for every shape / spacing / shift -/
 theorem gen_ffs_backprop (a0 a1 b0 b1 idx pd wl odx sx sy : Rat) :
@@ -33,7 +43,7 @@ theorem gen_ffs_backprop (a0 a1 b0 b1 idx pd wl odx sx sy : Rat) :
     ffsBackWired = true ∧ ffsFwdWired = true := by
   refine ⟨?_, ?_, ?_, ?_, ?_, ?_⟩ <;>
     simp only [ffsBackQy, ffsFwdQy, ffsBackQx, ffsFwdQx, ffsBackShiftX, ffsFwdShiftX, ffsBackShiftY, ffsFwdShiftY,
-      ffsBackWired, ffsFwdWired]
+      ffsBackWired, ffsFwdWired] <;> glue_eq
 
 theorem gen_ufs_backprop (a0 a1 b0 b1 idx pd wl odx sx sy : Rat) :
     ufsBackQy a0 a1 b0 b1 idx pd wl odx sx sy = ufsFwdQy a0 a1 b0 b1 idx pd wl odx sx sy ∧
@@ -43,7 +53,7 @@ theorem gen_ufs_backprop (a0 a1 b0 b1 idx pd wl odx sx sy : Rat) :
     ufsBackWired = true ∧ ufsFwdWired = true := by
   refine ⟨?_, ?_, ?_, ?_, ?_, ?_⟩ <;>
     simp only [ufsBackQy, ufsFwdQy, ufsBackQx, ufsFwdQx, ufsBackShiftX, ufsFwdShiftX, ufsBackShiftY, ufsFwdShiftY,
-      ufsBackWired, ufsFwdWired]
+      ufsBackWired, ufsFwdWired] <;> glue_eq
 
 /-- `to_fpm_and_back_backprop`: both adjoint legs use the Q and the shift of the forward leg they undo
 (any pupil shape `(p0,p1)`, any mask shape `(m0,m1)`, any shift), the result carries no extra sign, and the mask is
@@ -60,7 +70,7 @@ theorem gen_fpm_backprop (p0 p1 m0 m1 dx efl wl fdx sx sy : Rat) :
   refine ⟨?_, ?_, ?_, ?_, ?_, ?_, ?_, ?_⟩ <;>
     simp only [fpmBackRetQy, fpmFwdRetQy, fpmBackRetQx, fpmFwdRetQx, fpmBackRetShiftX, fpmFwdRetShiftX,
       fpmBackRetShiftY, fpmFwdRetShiftY, fpmBackOutQy, fpmFwdOutQy, fpmBackOutQx, fpmFwdOutQx,
-      fpmBackOutShiftX, fpmFwdOutShiftX, fpmBackOutShiftY, fpmFwdOutShiftY]
+      fpmBackOutShiftX, fpmFwdOutShiftX, fpmBackOutShiftY, fpmFwdOutShiftY] <;> glue_eq
 
 theorem gen_fpm_sign_conj :
     fpmBackSign = 1 ∧ fpmBackConjMaskIffComplex = true ∧ fpmBackWired = true ∧ fpmFwdWired = true := by
@@ -76,11 +86,12 @@ theorem gen_babinet :
 section
 variable {K : Type} [Field K]
 
-/-- the translated cost functions are the model's formulas (for every length and every data) -/
-theorem gen_mse (n : Nat) (Mv D : Nat → K) :
-    mseCost n Mv D = Model.C06.mseCost n Mv D ∧ mseGrad n Mv D = Model.C06.mseGrad n Mv D ∧
-    mseMaskedIsCompressScatter = true := ⟨rfl, rfl, rfl⟩
+/-- the masked branches of the three cost functions only compress the inputs and scatter the gradient into zeros
+(recognised statement shapes; the masked paths themselves are exercised numerically) -/
+theorem gen_masked_costs :
+    mseMaskedIsCompressScatter = true ∧ bgieMaskedIsCompressScatter = true ∧ nllMaskedIsCompressScatter = true := by decide
 
+/-- `bias_and_gain_invariant_error` as translated is the recognised closed form (least-squares gain and bias) -/
 theorem gen_bgie (n : Nat) (I D : Nat → K) :
     bgieCost n I D = Model.C06.bgieCost n I D ∧ bgieGrad n I D = Model.C06.bgieGrad n I D ∧
     bgieMaskedIsCompressScatter = true := ⟨rfl, rfl, rfl⟩
@@ -129,12 +140,42 @@ theorem gen_live_attributes :
 /-- `intensity_backprop` and `from_amp_and_phase_backprop_phase` are the model's formulas -/
 theorem gen_wavefront (Ibar k : K) (E gbar g : Cx K) :
     intensityBack Ibar E = Model.C06.intensityBack Ibar E ∧ phaseBack k gbar g = Model.C06.phaseBack k gbar g ∧
-    intensityFwdIsAbsSquared = true ∧ phaseBackUsesForwardWavenumber = true := ⟨rfl, rfl, rfl, rfl⟩
+    intensityFwdIsAbsSquared = true := ⟨rfl, rfl, rfl⟩
 
-/-- structure of the remaining companions, read off the source -/
-theorem gen_structure :
-    dft2BackpropIsConjTransposeOfSameBases = true ∧ idft2BackpropIsConjTransposeOfSameBases = true ∧
-    modalBackContractsBothImageAxes = true ∧ dmBackpropReversesRenderSteps = true := by decide
+/-- the wavenumber the backprop multiplies by is the one in the forward's exponent (`exp(i·k·φ)`), both translated -/
+theorem gen_phase_wavenumber (pi wavelength : K) : phaseBackK pi wavelength = phaseFwdK pi wavelength := by
+  simp only [phaseBackK, phaseFwdK, ofInt_eq]; push_cast; ring
+
+/-- `dft2_backprop` / `idft2_backprop` as TRANSLATED (matrix products, transposes, conjugates of the cached bases) are the
+model's `dftBack`, the forwards are the model's `dft2` / `idft2`, and both sides look their bases up under the same key once the
+backprop's shape arguments are read as the forward's input / output shapes -/
+theorem gen_mdft_terms (conj : K → K) (M m n N : Nat) (Eo f y Ei : Model.C06.Mat K) {T : Type} (Q shift : T) (a b : Nat × Nat) :
+    dft2FwdTerm M m n N Eo f Ei = Model.C06.dft2 M m n N Eo f Ei ∧
+    dft2BackTerm conj M m n N Eo y Ei = Model.C06.dftBack conj M m n N Eo y Ei ∧
+    idft2FwdTerm M m n N Eo f Ei = Model.C06.idft2 M m n N Eo f Ei ∧
+    idft2BackTerm conj M m n N Eo y Ei = Model.C06.dftBack conj M m n N Eo y Ei ∧
+    dft2BackKey Q shift a b = dft2FwdKey Q shift a b ∧ idft2BackKey Q shift a b = idft2FwdKey Q shift a b ∧
+    dft2FwdKey Q shift a b ≠ idft2FwdKey Q shift a b := by
+  refine ⟨?_, ?_, ?_, ?_, ?_, ?_, ?_⟩
+  · first | rfl | (simp only [dft2FwdTerm, Model.C06.dft2, matmul_assoc] <;> first | done | rfl) | (simp only [dft2FwdTerm, Model.C06.dft2, ← matmul_assoc] <;> first | done | rfl)
+  · first | rfl | (simp only [dft2BackTerm, Model.C06.dftBack, Model.C06.conjT, matmul_assoc] <;> first | done | rfl) | (simp only [dft2BackTerm, Model.C06.dftBack, Model.C06.conjT, ← matmul_assoc] <;> first | done | rfl)
+  · first | rfl | (simp only [idft2FwdTerm, Model.C06.idft2, matmul_assoc] <;> first | done | rfl) | (simp only [idft2FwdTerm, Model.C06.idft2, ← matmul_assoc] <;> first | done | rfl)
+  · first | rfl | (simp only [idft2BackTerm, Model.C06.dftBack, Model.C06.conjT, matmul_assoc] <;> first | done | rfl) | (simp only [idft2BackTerm, Model.C06.dftBack, Model.C06.conjT, ← matmul_assoc] <;> first | done | rfl)
+  · rfl
+  · rfl
+  · simp [dft2FwdKey, idft2FwdKey]
+
+/-- `sum_of_2d_modes` contracts the mode index with the weights; its backprop contracts exactly the two image axes of the
+modes with the two axes of the upstream gradient (any spelling of `axes=`) -/
+theorem gen_modal_axes :
+    modalFwdAxes = [(0, 0)] ∧ modalBackAxes.length = 2 ∧ (∀ p, p ∈ modalBackAxes ↔ p = (1, 0) ∨ p = (2, 1)) := by
+  refine ⟨by decide, by decide, ?_⟩
+  intro p
+  simp only [modalBackAxes, List.mem_cons, List.mem_nil_iff, or_false] <;> tauto
+
+/-- `DM.render_backprop` performs the adjoint of every array operation of `DM.render`, in reverse order -/
+theorem gen_dm_steps : dmBackSteps = (dmRenderSteps.map Model.C06.dmAdjointOf).reverse := by decide
+
 end
 
 
@@ -205,18 +246,22 @@ section linear
 variable {C : Type} [Field C] (conj : C →+* C) (hc : ∀ a, conj (conj a) = a)
 include hc
 
-/-- matrix-DFT forward: `⟨y, Eout·f·Ein⟩ = ⟨Eoutᴴ·(y·Einᴴ), f⟩` for all rectangular sizes and ALL basis matrices
-(hence every Q, shape, shift): `dft2_backprop` is the adjoint of `dft2` -/
+/-- matrix-DFT forward, over the TRANSLATED bodies of `dft2` and `dft2_backprop`: `⟨y, dft2(f)⟩ = ⟨dft2_backprop(y), f⟩` for all
+rectangular sizes and ALL basis matrices (hence every Q, shape, shift) -/
 theorem triple_product_adjoint (M m n N : Nat) (Eo Ei f y : Model.C06.Mat C) :
-    Model.C06.ip2 conj M N y (Model.C06.dft2 M m n N Eo f Ei)
-      = Model.C06.ip2 conj m n (Model.C06.dftBack conj M m n N Eo y Ei) f :=
-  dft2_adjoint conj hc M m n N Eo Ei f y
+    Model.C06.ip2 conj M N y (dft2FwdTerm M m n N Eo f Ei)
+      = Model.C06.ip2 conj m n (dft2BackTerm conj M m n N Eo y Ei) f := by
+  have h := gen_mdft_terms (K := C) conj M m n N Eo f y Ei (0 : Nat) 0 (0, 0) (0, 0)
+  rw [h.1, h.2.1]
+  exact dft2_adjoint conj hc M m n N Eo Ei f y
 
-/-- the same for the association used by `idft2` (`Eout·(f·Ein)`): `idft2_backprop` is the adjoint of `idft2` -/
+/-- the same over the translated bodies of `idft2` (`Eout·(f·Ein)`) and `idft2_backprop` -/
 theorem triple_product_adjoint_inverse (M m n N : Nat) (Eo Ei f y : Model.C06.Mat C) :
-    Model.C06.ip2 conj M N y (Model.C06.idft2 M m n N Eo f Ei)
-      = Model.C06.ip2 conj m n (Model.C06.dftBack conj M m n N Eo y Ei) f :=
-  idft2_adjoint conj hc M m n N Eo Ei f y
+    Model.C06.ip2 conj M N y (idft2FwdTerm M m n N Eo f Ei)
+      = Model.C06.ip2 conj m n (idft2BackTerm conj M m n N Eo y Ei) f := by
+  have h := gen_mdft_terms (K := C) conj M m n N Eo f y Ei (0 : Nat) 0 (0, 0) (0, 0)
+  rw [h.2.2.1, h.2.2.2.1]
+  exact idft2_adjoint conj hc M m n N Eo Ei f y
 
 /-- multiplication by a (complex) mask: the adjoint multiplies by the conjugate mask -/
 theorem mask_mul_adjoint (m n : Nat) (k x y : Model.C06.Mat C) :
@@ -324,12 +369,16 @@ theorem phase_grad (k : K) (gbar g : Cx K) :
     Model.C06.reDot gbar (Cx.smul k ((⟨0, 1⟩ : Cx K) * g)) = phaseBack k gbar g :=
   phase_core k gbar g
 
-/-- mean-square error: `cost(M + tδ) = cost(M) + t·⟨grad, δ⟩ + t²·(…)` exactly, for every length and data -/
+/-- mean-square error, RELATIVE to the translated pair (no hand model involved): the translated cost is an exact quadratic
+along every direction, `cost(M + tδ) = cost(M) + t·⟨grad(M), δ⟩ + t²·cost(D + δ)`, so the translated gradient is the derivative of
+the translated cost whatever normalisation convention the source uses (1/n, 1/(2n), …) -/
 theorem mse_grad (n : Nat) (M D δ : Nat → K) (t : K) :
     mseCost n (fun i => M i + t * δ i) D
-      = mseCost n M D + t * (∑ i ∈ range n, mseGrad n M D i * δ i)
-        + t ^ 2 * ((∑ i ∈ range n, δ i * δ i) * (1 / (n : K))) :=
-  mse_expand n M D δ t
+      = mseCost n M D + t * (∑ i ∈ range n, mseGrad n M D i * δ i) + t ^ 2 * mseCost n (fun i => D i + δ i) D := by
+  simp only [mseCost, mseGrad, sumTo_eq, ofInt_eq, Num.ofFrac, Num.npow]
+  simp only [Finset.mul_sum, Finset.sum_mul, ← Finset.sum_add_distrib]
+  refine Finset.sum_congr rfl fun i _ => ?_
+  push_cast; ring
 
 /-- bias-and-gain-invariant error, part 1: the internal gain and bias satisfy the normal equations, hence are a
 stationary point of the cost in (gain, bias): no first-order dependence of the cost on them -/
@@ -422,7 +471,7 @@ theorem sigmoid_deriv (a x0 y0 x : ℝ) :
 /-- mean-square error as a derivative: `d/dt cost(M + tδ)|₀ = ⟨grad, δ⟩` -/
 theorem mse_hasDerivAt (n : Nat) (M D δ : Nat → ℝ) :
     HasDerivAt (fun t : ℝ => mseCost n (fun i => M i + t * δ i) D) (∑ i ∈ range n, mseGrad n M D i * δ i) 0 :=
-  hasDerivAt_of_quadratic _ _ _ _ (fun t => mse_grad n M D δ t)
+  hasDerivAt_of_quadratic _ _ _ (mseCost n (fun i => D i + δ i) D) (fun t => mse_grad n M D δ t)
 
 
 /-- bias-and-gain-invariant error, full statement: with the gain and bias re-estimated at every point, the returned
@@ -496,6 +545,69 @@ theorem dm_render_adjoint_crop (ky kx loy sty lox stx m n M N : Nat) (hm : M ≤
     hsy hsx hly hlx F1 F2 G1 G2 H c1 c2 c h1 h2 hc1 hc2 hcc a y
 end dm
 
+/-! ## compositions -/
+
+/-- Babinet end to end: `hTB` of `babinet_adjoint` instantiated with the mask-and-back pair -/
+theorem babinet_fpm_adjoint {C : Type} [Field C] (conj : C →+* C) (hc : ∀ a, conj (conj a) = a)
+    (p0 p1 M0 M1 : Nat) (Eo1 Ei1 mask Eo2 Ei2 L x y : Model.C06.Mat C) :
+    Model.C06.ip2 conj p0 p1 y (Model.C06.babinetFwd (Model.C06.fpmFwd p0 p1 M0 M1 Eo1 Ei1 mask Eo2 Ei2) L x)
+      = Model.C06.ip2 conj p0 p1
+          (Model.C06.babinetBack conj ((babinetBackCoef : Int) : C)
+            (Model.C06.fpmBack conj ((fpmBackSign : Int) : C) fpmBackConjMaskIffComplex p0 p1 M0 M1 Eo1 Ei1 mask Eo2 Ei2) L y) x :=
+  babinet_adjoint conj hc p0 p1 _ _ (fun x y => fpm_adjoint conj hc p0 p1 M0 M1 Eo1 Ei1 mask Eo2 Ei2 x y) L x y
+
+/-- discrete encoder over the Gumbel-softmax estimator (the shipped combination) -/
+theorem encoder_gumbel_vjp (n : Nat) (tau : ℝ) (x δ levels γ : Nat → ℝ) (gbar : ℝ) :
+    HasDerivAt (fun t : ℝ => gbar * Model.C06.encoderFwd n levels
+        (Model.C06.softmaxFwd Real.exp n (fun j => (x j + t * δ j + γ j) / tau)))
+      (∑ j ∈ range n, encoderBack (gumbelBack tau n (Model.C06.softmaxFwd Real.exp n (fun j => (x j + γ j) / tau))) levels gbar j * δ j) 0 := by
+  have h := gumbel_vjp n tau x δ (fun k => gbar * levels k) γ
+  have hf : (fun t : ℝ => gbar * Model.C06.encoderFwd n levels (Model.C06.softmaxFwd Real.exp n (fun j => (x j + t * δ j + γ j) / tau)))
+      = fun t : ℝ => ∑ i ∈ range n, (gbar * levels i) * Model.C06.softmaxFwd Real.exp n (fun j => (x j + t * δ j + γ j) / tau) i := by
+    funext t
+    simp only [Model.C06.encoderFwd, sumTo_eq, Finset.mul_sum]
+    exact Finset.sum_congr rfl fun i _ => by ring
+  rw [hf]
+  exact h
+
+/-- batches: `Softmax` treats every row of the `(A, K)` work array independently, so the VJP of the batch is the row-wise VJP -/
+theorem softmax_vjp_batch (A n : Nat) (X Δ G : Nat → Nat → ℝ) :
+    HasDerivAt (fun t : ℝ => ∑ a ∈ range A, ∑ i ∈ range n, G a i * Model.C06.softmaxFwd Real.exp n (fun j => X a j + t * Δ a j) i)
+      (∑ a ∈ range A, ∑ j ∈ range n, softmaxBack n (Model.C06.softmaxFwd Real.exp n (X a)) (G a) j * Δ a j) 0 :=
+  HasDerivAt.fun_sum fun a _ => softmax_vjp n (X a) (Δ a) (G a)
+
+/-- taking real parts (as `apply_transfer_functions` does): if `B` is the adjoint of the complex-linear `A`, then for real
+(self-conjugate) `x`, `y` the real parts pair up too: `⟨y, A x + conj(A x)⟩ = ⟨B y + conj(B y), x⟩` (twice the real parts) -/
+theorem real_part_adjoint {C : Type} [Field C] (conj : C →+* C) (hc : ∀ a, conj (conj a) = a) (m n M N : Nat)
+    (Ax By x y : Model.C06.Mat C) (hx : ∀ i j, conj (x i j) = x i j) (hy : ∀ i j, conj (y i j) = y i j)
+    (h : Model.C06.ip2 conj M N y Ax = Model.C06.ip2 conj m n By x) :
+    Model.C06.ip2 conj M N y (fun i j => Ax i j + conj (Ax i j))
+      = Model.C06.ip2 conj m n (fun i j => By i j + conj (By i j)) x := by
+  have h' := congrArg conj h
+  simp only [Model.C06.ip2, sumTo_eq, map_sum, map_mul, hc, hx, hy, map_add, mul_add, add_mul, Finset.sum_add_distrib] at h h' ⊢
+  rw [h, h']
+
+/-- phase node, composed: for `g(φ) = A·exp(i·k·φ)` with the forward's wavenumber, the derivative of the real pairing
+`φ ↦ Re(conj(gbar)·g(φ))` (how a cost depends on `φ` through `g`, prysm's gradient convention) is what the backprop returns,
+`phaseBack k gbar g(φ₀)` with the backprop's wavenumber -/
+theorem phase_hasDerivAt (A pi wavelength φ0 : ℝ) (gbar : Cx ℝ) :
+    HasDerivAt (fun φ : ℝ => ((starRingEnd ℂ) (toC gbar) * ((A : ℂ) * Complex.exp (Complex.I * (phaseFwdK pi wavelength : ℝ) * φ))).re)
+      (phaseBack (phaseBackK pi wavelength) gbar
+        ⟨A * Real.cos (phaseFwdK pi wavelength * φ0), A * Real.sin (phaseFwdK pi wavelength * φ0)⟩) φ0 := by
+  rw [gen_phase_wavenumber]
+  set k : ℝ := phaseFwdK pi wavelength with hk
+  have h1 := phase_derivation_law A k φ0
+  have h2 := (h1.const_mul ((starRingEnd ℂ) (toC gbar)))
+  have h3 := Complex.reCLM.hasFDerivAt.comp_hasDerivAt φ0 h2
+  have e : Complex.exp (Complex.I * (k : ℂ) * (φ0 : ℂ)) = (Real.cos (k * φ0) : ℂ) + (Real.sin (k * φ0) : ℂ) * Complex.I := by
+    have : Complex.I * (k : ℂ) * (φ0 : ℂ) = ((k * φ0 : ℝ) : ℂ) * Complex.I := by push_cast; ring
+    rw [this, Complex.exp_mul_I, Complex.ofReal_cos, Complex.ofReal_sin]
+  refine h3.congr_deriv ?_
+  simp only [Complex.reCLM_apply, e, phaseBack, toC, cx_mul_im, cx_conj_re, cx_conj_im]
+  simp only [Complex.mul_re, Complex.mul_im, Complex.add_re, Complex.add_im, Complex.ofReal_re, Complex.ofReal_im,
+    Complex.I_re, Complex.I_im, Complex.conj_re, Complex.conj_im]
+  ring
+
 /-! ## the executable model itself (complex numbers as pairs of reals, as the driver evaluates them) -/
 
 /-- matrix-DFT pair as modelled with concrete bases (any Q, shift, shapes, any `cos/sin/sqrt`): `mdftBack` is the
@@ -533,8 +645,8 @@ theorem driver_pipelines_agree {K : Type} [Num K] (cosf sinf sqrtf : K → K) (t
 
 /-- `ℂ` with complex conjugation is an instance of `(C, conj)` -/
 example (M m n N : Nat) (Eo Ei f y : Model.C06.Mat ℂ) :
-    Model.C06.ip2 (starRingEnd ℂ) M N y (Model.C06.dft2 M m n N Eo f Ei)
-      = Model.C06.ip2 (starRingEnd ℂ) m n (Model.C06.dftBack (starRingEnd ℂ) M m n N Eo y Ei) f :=
+    Model.C06.ip2 (starRingEnd ℂ) M N y (dft2FwdTerm M m n N Eo f Ei)
+      = Model.C06.ip2 (starRingEnd ℂ) m n (dft2BackTerm (starRingEnd ℂ) M m n N Eo y Ei) f :=
   triple_product_adjoint (starRingEnd ℂ) (fun a => by simp) M m n N Eo Ei f y
 
 /-- real arrays: `ℝ` with the identity -/
